@@ -25,8 +25,8 @@ func (c11) Rule() string {
 	return "histories (all of length <= 2 in quick / <= 3 in thorough over the 7-op alphabet, plus seeded histories to length 30) of {encode ok, encode failing, decode ok, decode of garbage, streaming write, streaming read, Reset} on ONE Encoder / Decoder / Serializer / pooled instance, followed by table-sensitive one-shot probe calls whose (bytes | value | error) are compared with the same probe on a freshly constructed instance: encode probes re-send a pointer and classes used earlier in the history (a stale reference or class table would emit a ref / skip a definition), decode probes are reference-encoded messages using class index 0, type index 0 and ref 0 (with and without defining them). After every call deep snapshots of the encoded value, the decoded byte slice and the complete caller-supplied maps are compared with snapshots taken before. Non-trivial = history length >= 1; distinct by (instance kind, history)."
 }
 
-var c11ops = []string{"enc-ok", "enc-fail", "dec-ok", "dec-garbage", "stream-write", "stream-read", "reset"}
-var c11kinds = []string{"Serializer", "Encoder+Decoder", "pooled Serializer", "pooled Encoder+Decoder", "Encoder with a nil name map + Decoder"}
+var c11ops = []string{"enc-ok", "enc-fail", "dec-ok", "dec-garbage", "stream-write", "stream-read", "reset", "dec-panic-deep"}
+var c11kinds = []string{"Serializer", "Encoder+Decoder", "pooled Serializer", "pooled Encoder+Decoder", "Encoder with a nil name map + Decoder", "Serializer with a nil type map"}
 
 func (c11) Cases(tier string, seed int64, kf *KnownFindings) []Case {
 	var cs []Case
@@ -84,6 +84,7 @@ type c11world struct {
 	encProbes   []interface{}
 	decProbes   [][]byte
 	nmExtracted map[string]string
+	deepPanic   []byte
 }
 
 func newC11World() *c11world {
@@ -159,7 +160,22 @@ func newC11World() *c11world {
 	})
 	p1, _ := hspec.Encode(msg, ch, hspec.EncOpts{})
 	p2, _ := hspec.Encode(hspec.Object("Inner", []string{"s", "a"}, hspec.String("perm"), hspec.Int(5)), hspec.Canonical{}, hspec.EncOpts{})
-	w.decProbes = [][]byte{p1, p2, ptrReg, {0x60}, {0x51, 0x90}, {0x72, 0x90, 0x90, 0x91}, {'O', 0x90}, {0x79, 0x51, 0x91}}
+	for i := 0; i < 300; i++ {
+		w.deepPanic = append(w.deepPanic, 0x57)
+	}
+	w.deepPanic = append(w.deepPanic, 'H', 0x57, 0x90, 'Z', 0x91, 'Z')
+	for i := 0; i < 300; i++ {
+		w.deepPanic = append(w.deepPanic, 'Z')
+	}
+	var nested40 []byte
+	for i := 0; i < 250; i++ {
+		nested40 = append(nested40, 0x57)
+	}
+	nested40 = append(nested40, 0x90)
+	for i := 0; i < 250; i++ {
+		nested40 = append(nested40, 'Z')
+	}
+	w.decProbes = [][]byte{p1, p2, ptrReg, nested40, {0x60}, {0x51, 0x90}, {0x72, 0x90, 0x90, 0x91}, {'O', 0x90}, {0x79, 0x51, 0x91}}
 	return w
 }
 
@@ -176,6 +192,9 @@ func (w *c11world) newInst(kind int, pools *[3]hessian.Pool) *c11inst {
 	case 3:
 		in.enc = pools[0].Get().(*hessian.Encoder)
 		in.dec = pools[1].Get().(*hessian.Decoder)
+	case 5:
+		// no type map given: the decoder keeps its own; what the ENCODER half meets must not teach the decoder half
+		in.ser = hessian.NewSerializer(nil, copyNames(w.nm))
 	default:
 		// no name map given: the encoder keeps its own (it registers class names as it meets them);
 		// a used instance must still produce what a fresh one of the same kind produces
@@ -214,6 +233,10 @@ func (w *c11world) apply(in *c11inst, op int, r *rand.Rand, snap func(what strin
 	case "dec-garbage":
 		b := w.garbage[r.Intn(len(w.garbage))]
 		snap("decode-garbage", nil, b, func() { in.decode(b) })
+	case "dec-panic-deep":
+		// 300 nested lists around a map whose key is a list: the runtime panics (unhashable key) deep
+		// inside the decoder and the entry point recovers; nothing of that depth may stay behind
+		snap("decode-panicking-deep-inside", nil, w.deepPanic, func() { in.decode(w.deepPanic) })
 	case "stream-write":
 		v1, v2 := w.values[r.Intn(len(w.values))], w.values[r.Intn(len(w.values))]
 		snap("stream-write", v1, nil, func() {
@@ -257,8 +280,8 @@ func (w *c11world) apply(in *c11inst, op int, r *rand.Rand, snap func(what strin
 }
 
 func freshKind(k int) int {
-	if k == 4 {
-		return 4
+	if k == 4 || k == 5 {
+		return k
 	}
 	return k % 2
 }
